@@ -35,6 +35,8 @@ const (
 	// tileHeight is the tlog tile height.
 	// From: https://developers.google.com/android/binary_transparency/tile
 	tileHeight = 1
+	// maxTreeSize is the largest tree size which tlog's proof functions can handle.
+	maxTreeSize = 1 << 62
 )
 
 // FeedLog retrieves checkpoints and proofs from the source Pixel BT log, and sends them to the witness.
@@ -55,6 +57,11 @@ func FeedLog(ctx context.Context, l config.Log, w feeder.Witness, c *http.Client
 	fetchProof := func(ctx context.Context, from, to log.Checkpoint) ([][]byte, error) {
 		if from.Size == 0 {
 			return [][]byte{}, nil
+		}
+		// tlog works on int64 sizes, and its arithmetic only terminates for trees of
+		// at most 2^62 leaves: refuse anything a (log-signed) checkpoint claims beyond that.
+		if to.Size > maxTreeSize || from.Size > to.Size {
+			return nil, fmt.Errorf("cannot build consistency proof between tree sizes %d and %d", from.Size, to.Size)
 		}
 		var h [32]byte
 		copy(h[:], to.Hash)
